@@ -393,3 +393,68 @@ fn f26_component_iteration_continues_after_a_module_whose_last_function_is_skipp
     }
     assert_eq!(n, 6); // module 0 func 0: nop end; module 1 func 0: nop nop nop end
 }
+
+fn valid(bytes: &[u8]) -> Result<(), String> {
+    wasmparser::Validator::new_with_features(wasmparser::WasmFeatures::all()).validate_all(bytes).map(|_| ()).map_err(|e| e.to_string())
+}
+
+#[test]
+fn f27_added_import_deleted_again_leaves_the_index_space() {
+    // memory
+    let w = wat::parse_str(r#"(module (import "e" "m0" (memory 1)) (memory 1) (memory 2) (func (export "f") (result i32) i32.const 0 i32.load 2))"#).unwrap();
+    let mut m = Module::parse(&w, true).unwrap();
+    let (mid, _) = m.add_import_memory("e".into(), "added".into(), wasmparser::MemoryType { memory64: false, shared: false, initial: 1, maximum: None, page_size_log2: None });
+    m.delete_memory(mid);
+    let o = m.encode();
+    valid(&o).unwrap();
+    assert!(print(&o).contains("i32.load 2"));
+    // global
+    let w = wat::parse_str(r#"(module (import "e" "g0" (global i32)) (global i32 (i32.const 1)) (global i32 (i32.const 2)) (func (export "f") (result i32) global.get 2))"#).unwrap();
+    let mut m = Module::parse(&w, true).unwrap();
+    let (gid, _) = m.add_imported_global("e".into(), "added".into(), DataType::I32, false, false);
+    m.delete_global(gid);
+    let o = m.encode();
+    valid(&o).unwrap();
+    assert!(print(&o).contains("global.get 2"));
+    // function
+    let w = wat::parse_str(r#"(module (import "e" "f0" (func)) (func) (func (export "f") call 1 call 2))"#).unwrap();
+    let mut m = Module::parse(&w, true).unwrap();
+    let (fid, _) = m.add_import_func("e".into(), "added".into(), TypeID(0));
+    m.delete_func(fid);
+    let o = m.encode();
+    valid(&o).unwrap();
+    // two converted imports, the first deleted: the second must not be numbered past the end
+    let w = wat::parse_str(r#"(module (import "e" "f0" (func)) (import "e" "f1" (func)) (func) (func (export "f") call 1 call 2))"#).unwrap();
+    let mut m = Module::parse(&w, true).unwrap();
+    let mut b = FunctionBuilder::new(&[], &[]);
+    b.nop();
+    b.replace_import_in_module(&mut m, ImportsID(0));
+    let mut b = FunctionBuilder::new(&[], &[]);
+    b.nop();
+    b.replace_import_in_module(&mut m, ImportsID(1));
+    m.delete_func(FunctionID(0));
+    valid(&m.encode()).unwrap();
+}
+
+#[test]
+fn f28_deeply_nested_component_is_an_error_not_a_stack_overflow() {
+    let header = [0x00u8, 0x61, 0x73, 0x6d, 0x0d, 0x00, 0x01, 0x00];
+    let nested = |depth: usize| {
+        let mut cur: Vec<u8> = header.to_vec();
+        for _ in 0..depth {
+            let mut outer = header.to_vec();
+            outer.push(4); // nested component section
+            outer.extend(leb(cur.len()));
+            outer.extend(cur);
+            cur = outer;
+        }
+        cur
+    };
+    assert!(Component::parse(&nested(5), false).is_ok());
+    for d in [1000usize, 20000] {
+        let b = nested(d);
+        // before the fix this aborted the process (SIGABRT: stack overflow)
+        let r = std::thread::Builder::new().stack_size(8 << 20).spawn(move || Component::parse(&b, false).is_err()).unwrap().join();
+        assert_eq!(r.ok(), Some(true));
+    }
+}
